@@ -16,6 +16,7 @@ pub mod c16;
 pub mod c17;
 pub mod c18;
 pub mod c19;
+pub mod c20;
 pub mod hist;
 
 use crate::run::Tier;
@@ -48,6 +49,7 @@ pub fn run(id: &str, tier: Tier, seed: u64) -> Option<i32> {
         "C16" => Some(c16::run(tier, seed)),
         "C18" => Some(c18::run(tier, seed)),
         "C19" => Some(c19::run(tier, seed)),
+        "C20" => Some(c20::run(tier, seed)),
         "C17" => Some(c17::run(tier, seed)),
         _ => hist_prop(id).map(|hp| hist::run(&hp, tier, seed)),
     }
@@ -65,6 +67,7 @@ pub fn replay(id: &str, v: &serde_json::Value) -> Result<Option<String>, String>
         "C16" => c16::replay(v),
         "C18" => c18::replay(v),
         "C19" => c19::replay(v),
+        "C20" => hist::replay_value(&c20::prop(), v),
         "C17" => c17::replay(v),
         _ => match hist_prop(id) {
             Some(hp) => hist::replay_value(&hp, v),
